@@ -132,3 +132,205 @@ func VerifC19XMLEncode() {
 	verifAssert(has1 && has2, "C19/xml-success-but-a-value-is-missing-from-the-output "+label)
 	verifCover("C19/xmlenc/end")
 }
+
+// ---- C14: XML output read back by an independent reader ----
+
+type c14X struct {
+	name  string
+	attrs [][2]string
+	kids  []*c14X
+	text  string
+}
+
+func c14XMLEntity(t string, i int) (string, int, bool) {
+	// t[i] == '&'
+	j := i + 1
+	for j < len(t) && !verifConcreteBool(t[j] == ';') {
+		j++
+	}
+	if j >= len(t) {
+		return "", 0, false
+	}
+	e := verifConcreteStr(t[i+1 : j])
+	switch e {
+	case "lt":
+		return "<", j + 1, true
+	case "gt":
+		return ">", j + 1, true
+	case "amp":
+		return "&", j + 1, true
+	case "quot":
+		return "\"", j + 1, true
+	case "apos":
+		return "'", j + 1, true
+	}
+	if len(e) >= 2 && e[0] == '#' {
+		n, base, k := 0, 10, 1
+		if e[1] == 'x' {
+			base, k = 16, 2
+		}
+		for ; k < len(e); k++ {
+			c := e[k]
+			d := 0
+			switch {
+			case c >= '0' && c <= '9':
+				d = int(c - '0')
+			case base == 16 && c >= 'a' && c <= 'f':
+				d = int(c-'a') + 10
+			case base == 16 && c >= 'A' && c <= 'F':
+				d = int(c-'A') + 10
+			default:
+				return "", 0, false
+			}
+			n = n*base + d
+		}
+		if n <= 0 || n > 127 {
+			return "", 0, false
+		}
+		return string([]byte{byte(n)}), j + 1, true
+	}
+	return "", 0, false
+}
+
+func c14XMLName(t string, i int) (string, int) {
+	j := i
+	for j < len(t) && !verifConcreteBool(t[j] == ' ' || t[j] == '>' || t[j] == '=' || t[j] == '/') {
+		j++
+	}
+	return t[i:j], j
+}
+
+// c14XMLRead: element := '<' name (' ' name '="' value '"')* '>' (text | element)* '</' name '>'
+func c14XMLRead(t string, i int) (*c14X, int, bool) {
+	if i >= len(t) || !verifConcreteBool(t[i] == '<') {
+		return nil, 0, false
+	}
+	x := &c14X{}
+	x.name, i = c14XMLName(t, i+1)
+	for i < len(t) && verifConcreteBool(t[i] == ' ') {
+		var an string
+		an, i = c14XMLName(t, i+1)
+		if i+1 >= len(t) || !verifConcreteBool(t[i] == '=') || !verifConcreteBool(t[i+1] == '"') {
+			return nil, 0, false
+		}
+		i += 2
+		av := ""
+		for i < len(t) && !verifConcreteBool(t[i] == '"') {
+			if verifConcreteBool(t[i] == '&') {
+				s, ni, ok := c14XMLEntity(t, i)
+				if !ok {
+					return nil, 0, false
+				}
+				av, i = av+s, ni
+				continue
+			}
+			if verifConcreteBool(t[i] == '<') {
+				return nil, 0, false
+			}
+			av += t[i : i+1]
+			i++
+		}
+		if i >= len(t) {
+			return nil, 0, false
+		}
+		i++
+		x.attrs = append(x.attrs, [2]string{an, av})
+	}
+	if i >= len(t) || !verifConcreteBool(t[i] == '>') {
+		return nil, 0, false
+	}
+	i++
+	for i < len(t) {
+		if verifConcreteBool(t[i] == '<') {
+			if i+1 < len(t) && verifConcreteBool(t[i+1] == '/') {
+				cn, ni := c14XMLName(t, i+2)
+				if cn != x.name || ni >= len(t) || !verifConcreteBool(t[ni] == '>') {
+					return nil, 0, false
+				}
+				return x, ni + 1, true
+			}
+			k, ni, ok := c14XMLRead(t, i)
+			if !ok {
+				return nil, 0, false
+			}
+			x.kids = append(x.kids, k)
+			i = ni
+			continue
+		}
+		if verifConcreteBool(t[i] == '&') {
+			s, ni, ok := c14XMLEntity(t, i)
+			if !ok {
+				return nil, 0, false
+			}
+			x.text, i = x.text+s, ni
+			continue
+		}
+		x.text += t[i : i+1]
+		i++
+	}
+	return nil, 0, false
+}
+
+func c14XDump(x *c14X) string {
+	s := "<" + x.name
+	for _, a := range x.attrs {
+		s += " @" + a[0] + "=(" + a[1] + ")"
+	}
+	s += " text=(" + x.text + ")"
+	for _, k := range x.kids {
+		s += " " + c14XDump(k)
+	}
+	return s + ">"
+}
+
+// VerifC14XMLEncodeTree: an element tree with an attribute, text, a nested element, repeated children and mixed
+// content, whose attribute and text values contain an arbitrary printable character, is written as XML that the
+// independent reader maps back to the same tree.
+func VerifC14XMLEncodeTree() {
+	c1 := verifStrN("c1", 1, " ~")
+	c2 := verifStrN("c2", 1, " ~")
+	a, v := "a"+c1+"b", "x"+c2+"y"
+	shape := verifChoice("shape", 4)
+	var n *yaml.Node
+	var want *c14X
+	switch shape {
+	case 0: // attribute + child text
+		n = vMap(vStr("root"), vMap(vStr("+@id"), vStr(a), vStr("child"), vStr(v)))
+		want = &c14X{name: "root", attrs: [][2]string{{"id", a}}, kids: []*c14X{{name: "child", text: v}}}
+	case 1: // repeated children from a sequence
+		n = vMap(vStr("root"), vMap(vStr("item"), vSeq(vStr(v), vStr(a)), vStr("last"), vStr("z")))
+		want = &c14X{name: "root", kids: []*c14X{{name: "item", text: v}, {name: "item", text: a}, {name: "last", text: "z"}}}
+	case 2: // attribute and text content on the same element
+		n = vMap(vStr("root"), vMap(vStr("+@k"), vStr(a), vStr("+content"), vStr(v)))
+		want = &c14X{name: "root", attrs: [][2]string{{"k", a}}, text: v}
+	default: // nesting, sequence of maps with attributes
+		n = vMap(vStr("root"), vMap(vStr("e"), vSeq(vMap(vStr("+@n"), vStr(a), vStr("t"), vStr(v)), vMap(vStr("t"), vStr("w")))))
+		want = &c14X{name: "root", kids: []*c14X{{name: "e", attrs: [][2]string{{"n", a}}, kids: []*c14X{{name: "t", text: v}}}, {name: "e", kids: []*c14X{{name: "t", text: "w"}}}}}
+	}
+	prefs := ConfiguredXMLPreferences.Copy()
+	prefs.Indent = 0
+	var sb strings.Builder
+	w := bufio.NewWriter(c17Writer{&sb})
+	err := NewXMLEncoder(prefs).Encode(w, vDoc(n))
+	if ferr := w.Flush(); err == nil {
+		err = ferr
+	}
+	verifAssert(err == nil, "C14/xml-encode-error")
+	if err != nil {
+		return
+	}
+	out := sb.String()
+	verifObserve("xml", out)
+	// the document ends with a newline after the root element
+	for len(out) > 0 && verifConcreteBool(out[len(out)-1] == '\n') {
+		out = out[:len(out)-1]
+	}
+	got, end, ok := c14XMLRead(out, 0)
+	verifAssert(ok && end == len(out), "C14/xml-output-not-well-formed")
+	if !ok || end != len(out) {
+		return
+	}
+	verifObserve("tree", c14XDump(got))
+	verifAssert(verifEqStr(c14XDump(got), c14XDump(want)), "C14/xml-output-reads-back-as-another-tree")
+	verifCover("C14/xmlenc/end")
+}
